@@ -135,3 +135,43 @@ func VP_C01_History() {
 	}
 	vpCover("end")
 }
+
+// vpLongPw: a long password: arbitrary first and last two bytes, constant filler between.
+func vpLongPw(label string, n int) string {
+	b := make([]byte, n)
+	for i := range b {
+		b[i] = 'p'
+	}
+	h := vpStr(label+"-head", 2)
+	t := vpStr(label+"-tail", 2)
+	copy(b, h)
+	copy(b[n-2:], t)
+	return string(b)
+}
+
+// VP_C01_LongPasswords: passwords of 1 KiB and more are hashed whole: truncations at common
+// buffer sizes, extensions and a changed last byte never authenticate.
+func VP_C01_LongPasswords() {
+	base := vpMkStoreDir()
+	def := uint(1 + vpChoose("default-set", 2))
+	d := vpNewDir(base, def)
+	lens := []int{1023, 1024, 1025, 4097}
+	n := lens[vpChoose("pwlen", len(lens))]
+	pw := vpLongPw("pw", n)
+	vpAssert("add-long-password", d.AddUser("u", pw, false) == nil)
+	ok, _, _, _, _ := d.Authenticate("u", pw)
+	vpAssert("long-password-authenticates", ok)
+	last := vpByte("otherlast")
+	cands := []string{pw[:n-1], pw + "x", pw[:n-1] + string([]byte{last}), pw[:1023], pw[:512], pw[1:]}
+	if n > 1024 {
+		cands = append(cands, pw[:1024])
+	}
+	if n > 4096 {
+		cands = append(cands, pw[:4096])
+	}
+	for _, c := range cands {
+		ok, _, _, _, _ := d.Authenticate("u", c)
+		vpAssert("long-near-miss-never-authenticates", ok == vpSameKey(def, c, pw))
+	}
+	vpCover("end")
+}
